@@ -6,7 +6,7 @@ import CimbaModel.HashHeap.Orders
 import CimbaModel.HashHeap.GuardOrder
 import CimbaModel.HashHeap.Hash
 import CimbaModel.HashHeap.Inv
-import CimbaModel.HashHeap.RefineLookup
+import CimbaModel.HashHeap.RefineAuto
 
 namespace CimbaModel.Props.C02
 open CimbaModel CimbaModel.HashHeap CimbaModel.Generated CimbaModel.KPQ
@@ -243,6 +243,65 @@ theorem payload_sticks_concrete {s s' : HH} (h : WF lt s) (h' : WF lt s') {k : N
   rw [hl, hl'] at heq
   exact Option.some.inj heq
 
+/-! #### automatically issued keys, re-insertion after removal, uniqueness of the minimum -/
+
+/-- as long as no live key is above the item counter (callers pass key 0, or keys not above the next automatic
+    one), the freshness precondition of `enqueue` holds by itself for key 0, and the invariant is kept -/
+theorem auto_key_enqueue_refines [StrictWeak lt] [IgnoresHidx lt] {s : HH} (h : WF lt s) (hkb : KeysBelowCounter s)
+    (it : Item) (d i : Int) (hctr : s.counter + 1 < 2 ^ 64) (hroom : s.count < 2 ^ s.exp ∨ s.exp < 31) :
+    ∃ s', enqueue lt s it 0 d i = .ok (s', s.counter + 1) ∧ WF lt s' ∧
+      (abs s').Perm (KPQ.insert (abs s) ⟨s.counter + 1, 0, it, d, i⟩) ∧ KeysBelowCounter s' := by
+  obtain ⟨s', hrun, hwf, hperm, _, hkb', _⟩ :=
+    auto_enqueue h hkb it 0 d i (Nat.zero_le _) hctr (fun h0 => absurd rfl h0) hroom
+  exact ⟨s', hrun, hwf, hperm, hkb'⟩
+
+/-- a key removed from the queue can be enqueued again (its tombstone is still in the hash map): the new entry
+    is found, the old payload is gone -/
+theorem reinsert_after_remove [StrictWeak lt] {s : HH} (h : WF lt s) {k : Nat} (hk : k ∈ keys (abs s))
+    (it : Item) (d i : Int) :
+    ∃ s1 s2, remove lt s k = .ok (s1, true) ∧ enqueue lt s1 it k d i = .ok (s2, k) ∧ WF lt s2 ∧
+      (abs s2).Perm (KPQ.insert (KPQ.remove (abs s) k) ⟨k, 0, it, d, i⟩) ∧
+      KPQ.lookup (abs s2) k = some ⟨k, 0, it, d, i⟩ := by
+  obtain ⟨hk0, hk64⟩ := h.keys_ne_zero hk
+  obtain ⟨s1, hrun1, hwf1, hperm1, hexp1, _, _, hc1⟩ := remove_abs h k hk0
+  have hnot : k ∉ keys (abs s1) := by
+    intro hm
+    rw [keys_perm hperm1] at hm
+    obtain ⟨x, hx, hxk⟩ := List.mem_map.1 hm
+    exact of_decide_eq_true (List.mem_filter.1 hx).2 hxk
+  have hpos : 0 < s.count := by
+    obtain ⟨j, hj, _⟩ := (mem_keys_abs s k).1 hk
+    have := hj.1; have := hj.2; omega
+  have hroom : s1.count < 2 ^ s1.exp := by
+    rw [hc1, if_pos hk, hexp1]; have := h.countLe; omega
+  have hk' : (if k = 0 then s1.counter + 1 else k) = k := if_neg hk0
+  obtain ⟨s2, hrun2, hwf2, hperm2, _⟩ := enqueue_abs_of_grow hwf1 it k d i (by rw [hk']; exact hk0)
+    (by rw [hk']; exact hk64) (by rw [hk']; exact hnot) (growOK_of_room hwf1 hroom)
+  rw [hk'] at hrun2 hperm2
+  refine ⟨s1, s2, by rw [hrun1]; simp [hk], hrun2, hwf2, ?_, (lookup_after_insert hwf1 hwf2 _ hperm2).1⟩
+  exact hperm2.trans (List.Perm.cons _ hperm1)
+
+/-- with an ordering that is total on distinct keys (the event queue, the waiting lists, the holder list and the
+    object priority queue all have one) the entry returned by `dequeue` goes strictly before every other entry -/
+theorem dequeue_strict_min [TotalOnKeys lt] [IgnoresHidx lt] {s : HH} (h : WF lt s) (hpos : 0 < s.count) :
+    ∃ s' e, dequeue lt s = .ok (s', some e) ∧ WF lt s' ∧ (abs s).Perm (norm e :: abs s') ∧
+      ∀ x, x ∈ abs s' → lt (norm e) x = true := by
+  obtain ⟨s', hrun, hwf, hperm, _⟩ := dequeue_abs h hpos
+  refine ⟨s', s.tag 1, hrun, hwf, hperm, ?_⟩
+  intro x hx
+  have hmin := root_isMin_abs h hpos
+  have hxs : x ∈ abs s := hperm.mem_iff.2 (List.mem_cons_of_mem _ hx)
+  have hnd : (norm (s.tag 1) :: abs s').Nodup := hperm.nodup_iff.1 h.abs_nodup
+  have hne : x ≠ norm (s.tag 1) := fun he => (List.nodup_cons.1 hnd).1 (he ▸ hx)
+  have hk : (norm (s.tag 1)).key ≠ x.key := fun hk => hne (eq_of_key_eq h.keys_nodup hxs hmin.1 hk.symm)
+  rcases TotalOnKeys.total (lt := lt) _ _ hk with hlt | hlt
+  · exact hlt
+  · rw [hmin.2 x hxs] at hlt; cases hlt
+
+/-- … and is therefore the only entry `dequeue` / `peek` may return -/
+theorem min_unique [TotalOnKeys lt] {s : HH} (h : WF lt s) {e e' : HTag}
+    (he : IsMin lt (abs s) e) (he' : IsMin lt (abs s) e') : e = e' := isMin_unique h.keys_nodup he he'
+
 end refinement
 
 /-! ### the hypotheses are satisfiable -/
@@ -276,5 +335,34 @@ example : ∃ s0, init 1 = .ok s0 ∧
   refine ⟨?_, fun _ _ => ⟨(by decide : (1 : Nat) ≠ 0), fun _ _ => ⟨trivial, fun _ _ => trivial⟩⟩⟩
   have : (⟨1, 0, {}, 3, 0⟩ : HTag) ∈ abs s' := hperm.mem_iff.2 (by simp [KPQ.insert, norm, hct0])
   exact List.mem_map.2 ⟨_, this, rfl⟩
+
+/-- a well-formed state that has gone through a capacity doubling exists: three automatic-key enqueues into a
+    heap created with capacity 2 -/
+example : ∃ s : HH, WF default_order_check s ∧ s.expInit = 1 ∧ 2 ≤ s.exp ∧ s.count = 3 := by
+  obtain ⟨s0, _, hwf0, habs0, hct0, hexp0, hei0⟩ := init_spec (lt := default_order_check) 1 (by decide) (by decide)
+  have hc0 : s0.count = 0 := by rw [← abs_length, habs0]; rfl
+  have hkb0 : KeysBelowCounter s0 := by intro k hk; rw [habs0] at hk; cases hk
+  have room : ∀ s : HH, WF default_order_check s → s.count ≤ 3 → s.count < 2 ^ s.exp ∨ s.exp < 31 := by
+    intro s hs hc
+    by_cases he : s.exp < 31
+    · exact Or.inr he
+    · left
+      have : 2 ^ 31 ≤ 2 ^ s.exp := Nat.pow_le_pow_right (by decide) (by omega)
+      omega
+  obtain ⟨s1, _, hwf1, _, hct1, hkb1, hc1, hei1⟩ := auto_enqueue hwf0 hkb0 {} 0 3 0 (Nat.zero_le _)
+    (by rw [hct0]; decide) (fun h => absurd rfl h) (room s0 hwf0 (by omega))
+  obtain ⟨s2, _, hwf2, _, hct2, hkb2, hc2, hei2⟩ := auto_enqueue hwf1 hkb1 {} 0 1 0 (Nat.zero_le _)
+    (by rw [hct1, hct0]; decide) (fun h => absurd rfl h) (room s1 hwf1 (by omega))
+  obtain ⟨s3, _, hwf3, _, hct3, hkb3, hc3, hei3⟩ := auto_enqueue hwf2 hkb2 {} 0 2 0 (Nat.zero_le _)
+    (by rw [hct2, hct1, hct0]; decide) (fun h => absurd rfl h) (room s2 hwf2 (by omega))
+  refine ⟨s3, hwf3, by rw [hei3, hei2, hei1, hei0], ?_, by omega⟩
+  have hle := hwf3.countLe
+  have : s3.count = 3 := by omega
+  rw [this] at hle
+  apply Classical.byContradiction
+  intro hlt
+  have : s3.exp ≤ 1 := by omega
+  have : 2 ^ s3.exp ≤ 2 ^ 1 := Nat.pow_le_pow_right (by decide) this
+  omega
 
 end CimbaModel.Props.C02
